@@ -40,8 +40,12 @@ func (g *richGen) leaf(mod string, typ string) *Node {
 func (g *richGen) fill(p *Node, depth, maxDepth int, mod string) {
 	n := g.r.Range(2, 6)
 	for i := 0; i < n && g.n < g.max; i++ {
-		x := g.r.Intn(12)
+		x := g.r.Intn(14)
 		switch {
+		case x == 13 && depth < maxDepth:
+			// a choice: its members' names are qualified by comparing with the node
+			// that holds the data (the choice and case are not part of the data path)
+			p.Children = append(p.Children, g.choice(depth, maxDepth, mod))
 		case x < 6:
 			p.Children = append(p.Children, g.leaf(mod, RichTypes[g.r.Intn(len(RichTypes))]))
 		case x < 7:
@@ -77,11 +81,45 @@ func (g *richGen) fill(p *Node, depth, maxDepth int, mod string) {
 			if g.r.Chance(1, 2) {
 				c.Children = append(c.Children, g.leaf("", RichTypes[g.r.Intn(len(RichTypes))]))
 			}
+			if g.r.Chance(1, 3) {
+				// a choice of the main module augmented into the container that g defines
+				c.Children = append(c.Children, g.choice(depth+1, maxDepth, ""))
+			}
 			p.Children = append(p.Children, c)
 		default:
 			p.Children = append(p.Children, g.leaf(mod, RichTypes[g.r.Intn(len(RichTypes))]))
 		}
 	}
+}
+
+func (g *richGen) choice(depth, maxDepth int, mod string) *Node {
+	g.n++
+	ch := &Node{Kind: Choice, Name: g.name("ch"), Module: mod}
+	for i := 0; i < g.r.Range(2, 3); i++ {
+		cs := &Node{Kind: Case, Name: g.name("cs"), Module: mod}
+		cs.Children = append(cs.Children, g.leaf(mod, RichTypes[g.r.Intn(len(RichTypes))]))
+		if g.r.Chance(1, 2) {
+			cs.Children = append(cs.Children, g.leaf(mod, RichTypes[g.r.Intn(len(RichTypes))]))
+		}
+		if depth+1 < maxDepth && g.r.Chance(1, 4) {
+			g.n++
+			c := &Node{Kind: Container, Name: g.name("c"), Module: mod}
+			g.fill(c, maxDepth, maxDepth, mod) // leaves only: most of a schema stays outside choices
+			cs.Children = append(cs.Children, c)
+		}
+		ch.Children = append(ch.Children, cs)
+	}
+	return ch
+}
+
+// HostileEnums gives some enumeration leaves labels that need escaping in
+// JSON (a backslash, a quote, a blank, a tab, markup, non-ASCII).
+func HostileEnums(r *kit.Rng, m *Node) {
+	m.Walk(func(x *Node) {
+		if (x.Kind == Leaf || x.Kind == LeafList) && x.Type == "enum" && r.Chance(1, 2) {
+			x.Enums = []string{"a\\b", "q\"q", "sp ace", "t\tb", "<&>", "é☃", "plain"}
+		}
+	})
 }
 
 // GenerateRich draws a two-module schema (main + g) that uses every leaf type.
